@@ -32,6 +32,8 @@ PROGS.update({
     'P22': [step('async', 1, cmd='continue', next=2, args=['v1'], kw=[['x', 'v3']]), step(cmd='wait', next=3, val='w1'),
             step('async', 1, cmd='stop', val='v0')],
     'P23': [step(cmd='continue', next=2, args=['v0']), step(cmd='stop', val='-')],
+    # mutable continuation arguments ("m1" is a list the receiving step consumes in place)
+    'P24': [step(cmd='continue', next=2, args=['m1'], kw=[['x', 'm2']]), step(cmd='continue', next=3, args=['m3']), step(cmd='stop', val='v1')],
 })
 
 # WorkChain programs with awaitables (linear outlines; awt = context keys of the awaitables, by index)
